@@ -196,6 +196,9 @@ func (oc *originCtx) visitCall(call *ssa.Call, resIdx int, d int) {
 		}
 		oc.add("pool", desc+".Get() at "+oc.c.pos(call), call)
 		return
+	case flow.IsFuncObj(o, "bufio", "Reader", "Peek"):
+		oc.add("global", "the connection's bufio.Reader buffer (Peek returns a view that the next read overwrites)", call)
+		return
 	case flow.IsFuncObj(o, "bytes", "Buffer", "Bytes"):
 		oc.visit(com.Args[0], d)
 		return
